@@ -136,6 +136,12 @@ def run(ctx):
         [('write', 'main', 'old'), ('write', 'd1/b', 'new'), ('write', 'd1/a', 'new'), ('load', False), ('empty', 'd1/b'), ('load', False),
          ('touch', 'main'), ('load', False), ('empty', 'main'), ('load', False)],
     ]
+    named += [
+        # rename into place: the file's own mtime does not advance, the directory's does
+        [('write', 'd1/a', 'new'), ('load', False), ('replace', 'd1/a', 'new', False), ('load', False), ('load', True)],
+        [('write', 'main', 'new'), ('write', 'd1/b', 'old'), ('load', False), ('replace', 'd1/b', 'old', True), ('load', False), ('touch', 'main'), ('load', False)],
+        [('write', 'd2/a', 'new'), ('write', 'd1/a', 'new'), ('load', False), ('replace', 'd1/a', 'old', False), ('replace', 'd2/a', 'new', True), ('load', False)],
+    ]
     for h in named:
         for variant in lc.VARIANTS:
             for en in (False, True):
